@@ -6,9 +6,10 @@
    [rename a b] is POSIX rename(2) with the error ignored, as the code does: nothing happens
    when [a] does not exist (or a = b), otherwise [b] is replaced by [a]'s file and [a] is gone.
 
-   The two std::vector<string> name lists are INSTRUMENTED: operator[] is [nth_N], and an
-   index outside the vector yields the result [OOB] (what -D_GLIBCXX_ASSERTIONS turns into an
-   abort on the real code).  The code is transcribed with its defect: the vector is filled by
+   The two std::vector<string> name lists are INSTRUMENTED: a vector [vec] is a size plus an
+   indexed store, push_back is [vpush], operator[] is [vget], which checks  i < size  exactly
+   like libstdc++'s assertion; an index outside the vector yields the result [OOB] (what
+   -D_GLIBCXX_ASSERTIONS turns into an abort on the real code).  The code is transcribed with its defect: the vector is filled by
    a loop bounded by  ii < _rotnum && ii < max_rotation  (so its size is 1 + min(rotnum,1024)),
    but the shifting loop runs  ii = _rotnum ... 1  and indexes  rlst[ii]  with the uncapped
    count.  No proofs in this file. *)
@@ -87,30 +88,55 @@ Definition log_gen_name (name : str) (compress : bool) (k : N) : str :=
 Definition db_gen_name (name : str) (k : N) : str := name ++ s_dot ++ dec k.
 Definition idx_gen_name (name : str) (k : N) : str := db_gen_name name k ++ s_idx.
 
+(* ---------------------------------------------------------------- instrumented vector *)
+(* std::vector<std::string>: its size and its elements (a binary trie indexed by i + 1, so
+   that an access costs log(size) steps when the model is evaluated) *)
+Inductive tree : Type := Leaf | Node (l : tree) (o : option str) (r : tree).
+
+Fixpoint tget (t : tree) (p : positive) : option str :=
+  match t with
+  | Leaf => None
+  | Node l o r => match p with xH => o | xO q => tget l q | xI q => tget r q end
+  end.
+
+Fixpoint tset (t : tree) (p : positive) (x : str) : tree :=
+  match t, p with
+  | Leaf, xH => Node Leaf (Some x) Leaf
+  | Leaf, xO q => Node (tset Leaf q x) None Leaf
+  | Leaf, xI q => Node Leaf None (tset Leaf q x)
+  | Node l o r, xH => Node l (Some x) r
+  | Node l o r, xO q => Node (tset l q x) o r
+  | Node l o r, xI q => Node l o (tset r q x)
+  end.
+
+Record vec : Type := mkvec { vlen : N; vtree : tree }.
+
+Definition vempty : vec := mkvec 0 Leaf.
+
+(* push_back *)
+Definition vpush (v : vec) (x : str) : vec :=
+  mkvec (vlen v + 1) (tset (vtree v) (N.succ_pos (vlen v)) x).
+
+(* operator[] with the bounds assertion  __n < this->size()  *)
+Definition vget (v : vec) (i : N) : option str :=
+  if i <? vlen v then tget (vtree v) (N.succ_pos i) else None.
+
 (* for (unsigned ii(0); ii < _rotnum && ii < max_rotation; ++ii) lst.push_back(mk (ii + 1));
-   [acc] is the vector so far, reversed.  The loop body runs at most max_rotation times;
-   fuel = max_rotation + 1 is never exhausted (NamesOutOfFuel is excluded by a lemma). *)
-Fixpoint names_loop (fuel : nat) (mk : N -> str) (rotnum ii : N) (acc : list str)
-  : option (list str) :=
+   The loop body runs at most max_rotation times; fuel = max_rotation + 1 is never exhausted
+   (the result None is excluded by a lemma). *)
+Fixpoint names_loop (fuel : nat) (mk : N -> str) (rotnum ii : N) (acc : vec) : option vec :=
   if (ii <? rotnum) && (ii <? max_rotation) then
     match fuel with
     | O => None
-    | S f => names_loop f mk rotnum (ii + 1) (mk (ii + 1) :: acc)
+    | S f => names_loop f mk rotnum (ii + 1) (vpush acc (mk (ii + 1)))
     end
-  else Some (List.rev acc).
+  else Some acc.
 
 Definition names_fuel : nat := S (N.to_nat max_rotation).
 
 (* vector contents after the push_back loop; first element pushed before the loop *)
-Definition build_names (first : str) (mk : N -> str) (rotnum : N) : option (list str) :=
-  names_loop names_fuel mk rotnum 0 [first].
-
-(* ---------------------------------------------------------------- instrumented vector *)
-Fixpoint nth_N (l : list str) (i : N) : option str :=
-  match l with
-  | [] => None
-  | x :: t => if i =? 0 then Some x else nth_N t (i - 1)
-  end.
+Definition build_names (first : str) (mk : N -> str) (rotnum : N) : option vec :=
+  names_loop names_fuel mk rotnum 0 (vpush vempty first).
 
 Inductive res : Type :=
 | Ok (d : dir)
@@ -119,25 +145,25 @@ Inductive res : Type :=
 
 (* for (unsigned ii(_rotnum); ii; --ii) rename (rlst[ii - 1].c_str(), rlst[ii].c_str());
    Every iteration either stops with OOB or decrements ii below the vector's length, so
-   fuel = length of the vector is enough whatever the count. *)
-Fixpoint shift_loop (fuel : nat) (rlst : list str) (ii : N) (d : dir) : res :=
+   fuel = size of the vector is enough whatever the count. *)
+Fixpoint shift_loop (fuel : nat) (rlst : vec) (ii : N) (d : dir) : res :=
   if ii =? 0 then Ok d else
   match fuel with
   | O => OutOfFuel
   | S f =>
-    match nth_N rlst (ii - 1), nth_N rlst ii with
+    match vget rlst (ii - 1), vget rlst ii with
     | Some a, Some b => shift_loop f rlst (ii - 1) (rename a b d)
     | _, _ => OOB
     end
   end.
 
 (* the persister's loop: two vectors, two renames per iteration *)
-Fixpoint shift_loop2 (fuel : nat) (dblst idxlst : list str) (ii : N) (d : dir) : res :=
+Fixpoint shift_loop2 (fuel : nat) (dblst idxlst : vec) (ii : N) (d : dir) : res :=
   if ii =? 0 then Ok d else
   match fuel with
   | O => OutOfFuel
   | S f =>
-    match nth_N dblst (ii - 1), nth_N dblst ii, nth_N idxlst (ii - 1), nth_N idxlst ii with
+    match vget dblst (ii - 1), vget dblst ii, vget idxlst (ii - 1), vget idxlst ii with
     | Some a, Some b, Some a', Some b' =>
         shift_loop2 f dblst idxlst (ii - 1) (rename a' b' (rename a b d))
     | _, _, _, _ => OOB
@@ -157,7 +183,7 @@ Definition rotate (name : str) (rotnum : N) (append compress force : bool) (d : 
     if (0 <? rotnum) && (negb append || force) then
       match build_names thisl (log_gen_name name compress) rotnum with
       | None => OutOfFuel
-      | Some rlst => shift_loop (length rlst) rlst rotnum d
+      | Some rlst => shift_loop (N.to_nat (vlen rlst)) rlst rotnum d
       end
     else Ok d in
   res_map (if append then open_app thisl else open_trunc thisl) shifted.
@@ -172,7 +198,7 @@ Definition initialise (name : str) (rotnum : N) (purge : bool) (d : dir) : res :
     let shifted :=
       if purge && (0 <? rotnum) then
         match build_names dbf (db_gen_name name) rotnum, build_names dbi (idx_gen_name name) rotnum with
-        | Some dblst, Some idxlst => shift_loop2 (length dblst) dblst idxlst rotnum d
+        | Some dblst, Some idxlst => shift_loop2 (N.to_nat (vlen dblst)) dblst idxlst rotnum d
         | _, _ => OutOfFuel
         end
       else Ok d in
